@@ -429,6 +429,9 @@ def run(ctx):
     quick = ctx.tier == "quick"
     cfg = R.model_cfg(model_exe)
     ctx.cov["model_cfg"] = cfg
+    # integer-spelled elements of aggregates of NUMBER are generated when the source reads them with ReadNumber (decided
+    # from the regenerated switch, i.e. from the source text)
+    W.NUMBER_ELEM_INT = cfg.get("numberElemReadsNumber") == "1"
     libs = R.build_libs(b, ctx.work, schemas_for(ctx, 3 if quick else 24))
     # corpus first
     cdir = os.path.join(VERIF, "corpus", "C01")
